@@ -219,7 +219,9 @@ class SpyFuture(Future):
             self.cancel_calls.append((s, instr.vnow(), False))
             LOG.add("spy.cancel.ret", tag=self.tag, value=False, refused=True)
             return False
+        was_done = self.done()
         r = super(SpyFuture, self).cancel()
+        self.effective_cancels = getattr(self, "effective_cancels", 0) + (1 if (r and not was_done) else 0)
         if r:
             # a delegate executor would notify waiters when it finds the
             # cancelled work item; do it here so waiters see it
@@ -228,7 +230,7 @@ class SpyFuture(Future):
             except Exception:
                 pass
         self.cancel_calls.append((s, instr.vnow(), r))
-        LOG.add("spy.cancel.ret", tag=self.tag, value=r)
+        LOG.add("spy.cancel.ret", tag=self.tag, value=r, effective=bool(r and not was_done))
         return r
 
     def __repr__(self):
